@@ -163,7 +163,7 @@ def rule_no_conflict_dropped(rep, crate):
     g = crate.fns.get('graph::dfa_util::get_states')
     ic = crate.fns.get('graph::dfa_util::iter_children')
     if rep.anchor(rid, 'fn get_states / iter_children', g is not None and ic is not None):
-        ok = bool(find_calls(g, r'dfa_util::iter_children$')) and bool(find_calls(g, r'HashSet::<T, S, A>::insert$')) and bool(find_calls(g, r'Vec::<T, A>::push$'))
+        ok = bool(find_calls(g, r'dfa_util::iter_children$')) and bool(find_calls(g, r'(HashSet::<T, S, A>|BTreeSet::<T, A>|BTreeSet::<T>)::insert$')) and bool(find_calls(g, r'Vec::<T, A>::push$'))
         d = ret_desc(ic)
         rng = re.search(r'RangeInclusive::<Idx>::new\(const:0,const:255\)', d) is not None
         clo = [c for c in crate.closures_of(ic)]
